@@ -78,8 +78,8 @@ type opT struct {
 type caseT struct {
 	Opt      optT
 	Path     string
-	AE       *string // nil: header absent
-	Recovery bool    `json:",omitempty"` // recovery.New() in front of the compression middleware
+	AE       *string     // nil: header absent
+	Recovery bool        `json:",omitempty"` // recovery.New() in front of the compression middleware
 	Pre      [][2]string `json:",omitempty"` // headers an outer middleware sets before the chain goes on
 	Head     bool        `json:",omitempty"` // HEAD request (otherwise GET)
 	Wrap     string      `json:",omitempty"` // other middleware wrapping the writer: "outer-noflush" / "outer-flush" in front of the compression middleware, "inner-noflush" / "inner-flush" behind it
@@ -91,6 +91,9 @@ type caseT struct {
 	Idx    int     `json:",omitempty"`
 	Poison bool    `json:",omitempty"` // responses on a failing writer were served (unjudged) just before the group
 	Seq    bool    `json:",omitempty"` // the members are served one after the other (state kept between requests)
+	// PreOp: one primitive (W code / B data / F) that a middleware in FRONT of the compression middleware performs on
+	// the bare writer before the chain goes on (in both runs); on the case line it precedes the marker Z
+	PreOp *opT `json:",omitempty"`
 	// Contract: a contract-only case (line tag K); every other field is unused then
 	Contract *contractT `json:",omitempty"`
 }
@@ -583,6 +586,9 @@ func realRun(k *caseT, withMW bool, nw []int) respT {
 	if len(k.Pre) > 0 {
 		r.Use(outer(k.Pre, nil))
 	}
+	if k.PreOp != nil {
+		r.Use(preMW(k.PreOp))
+	}
 	res := &runRes{}
 	if hasOp(k.Prog, "Hj") || hasOp(k.Prog, "Cx") {
 		r.Use(envMW(k.Prog, res))
@@ -964,6 +970,23 @@ func poison(opt optT) {
 }
 
 // outer is a middleware in front of the compression middleware that sets response headers
+// preMW performs one primitive on the writer as it finds it, then lets the chain go on.
+func preMW(op *opT) router.HandlerFunc {
+	return func(c *router.Context) {
+		switch op.K {
+		case "W":
+			c.Response.WriteHeader(op.Code)
+		case "B":
+			c.Response.Write(op.Data) //nolint:errcheck
+		case "F":
+			if f, ok := c.Response.(http.Flusher); ok {
+				f.Flush()
+			}
+		}
+		c.Next()
+	}
+}
+
 func outer(pre [][2]string, after func()) router.HandlerFunc {
 	return func(c *router.Context) {
 		for _, kv := range pre {
@@ -1066,7 +1089,7 @@ func take(b []byte, n int) []byte {
 	return b
 }
 
-func sniffTable(prims []primT) [][2][]byte {
+func sniffTable(lists ...[]primT) [][2][]byte {
 	seen := map[string]bool{}
 	var tab [][2][]byte
 	add := func(b []byte) {
@@ -1081,19 +1104,21 @@ func sniffTable(prims []primT) [][2][]byte {
 		}
 		tab = append(tab, [2][]byte{append([]byte{}, p...), []byte(ct)})
 	}
-	var cum []byte
 	add(nil)
-	for _, p := range prims {
-		switch p.K {
-		case "B":
-			add(p.Data)
-			cum = append(cum, p.Data...)
-			add(cum)
-		case "C":
-			for _, c := range p.Chunks {
-				add(c)
-				cum = append(cum, c...)
+	for _, prims := range lists {
+		var cum []byte
+		for _, p := range prims {
+			switch p.K {
+			case "B":
+				add(p.Data)
+				cum = append(cum, p.Data...)
 				add(cum)
+			case "C":
+				for _, c := range p.Chunks {
+					add(c)
+					cum = append(cum, c...)
+					add(cum)
+				}
 			}
 		}
 	}
@@ -1315,12 +1340,32 @@ func render(id string, k *caseT, prims []primT, plain, with respT, st *hx.Stats,
 	for _, key := range pk {
 		l.Str(key).Nat(1).Str(pre[key])
 	}
-	tab := sniffTable(prims)
+	var prePrims []primT
+	if k.PreOp != nil {
+		prePrims = []primT{{K: k.PreOp.K, Code: k.PreOp.Code, Data: k.PreOp.Data}}
+	}
+	tab := sniffTable(append(append([]primT(nil), prePrims...), prims...), prims)
 	l.Nat(len(tab))
 	for _, e := range tab {
 		l.Tok(encBytes(e[0])).Bytes(e[1])
 	}
-	l.Nat(len(prims))
+	if k.PreOp != nil {
+		l.Nat(len(prims) + 2)
+		switch k.PreOp.K {
+		case "W":
+			l.Tok("W").Nat(k.PreOp.Code)
+		case "B":
+			l.Tok("B").Tok(encBytes(k.PreOp.Data))
+		case "F":
+			l.Tok("F")
+		}
+		l.Tok("Z")
+		if st != nil {
+			st.Count("outer_middleware_used_the_writer_first")
+		}
+	} else {
+		l.Nat(len(prims))
+	}
 	nWrites, explicit, nFlush, total, lateEdit := 0, false, 0, 0, false
 	committed := false
 	for _, p := range prims {
